@@ -4,6 +4,7 @@ import PP.Driver.ValCodec
 import PP.Driver.RegCodec
 import PP.Driver.GraphCodec
 import PP.Model.Color
+import PP.Model.Cost
 open PP PP.Sexp
 
 /-- one layout configuration `(w rw smart)` -/
@@ -33,6 +34,12 @@ def handle (req : Sexp) : Sexp :=
     match failRequest r with
     | some x => x
     | none => sym "bad-request"
+  | .list [.atom "cost", v, st] =>
+    match decodeVal v, decodeSettings st with
+    | some v, some st =>
+      let d := (Pr.topDoc st.ctx v).normalize
+      .list [sym "ok", ofNat (Pr.pyCalls v), ofNat d.size, ofNat (runW st.cfg [(0, .brk, .doc d)] 0)]
+    | _, _ => sym "bad-request"
   | .list [.atom "color", out] =>
     match decodeSDocs out with
     | some out => .list (sym "ok" :: (Color.colorRender out).map encodeOut)
